@@ -3,6 +3,7 @@
 package isaacstates
 
 import (
+	"context"
 	"fmt"
 	"sort"
 	"strings"
@@ -86,6 +87,37 @@ func c08newEnv() *c08env {
 	}
 }
 
+// c08processed puts ops into the pool and lets them be filtered out at height, as already processed operations
+// are when a proposal is made: they become removed-operation records of that height.
+func c08processed(pool *isaacdatabase.TempPool, height base.Height, ops []base.Operation) {
+	if len(ops) < 1 {
+		return
+	}
+	for _, op := range ops {
+		if added, err := pool.SetOperation(context.Background(), op); err != nil || !added {
+			panic(fmt.Sprintf("set operation: added=%v err=%v", added, err))
+		}
+	}
+	got, err := pool.OperationHashes(context.Background(), height, uint64(len(ops)),
+		func(isaac.PoolOperationRecordMeta) (bool, error) { return false, nil })
+	if err != nil || len(got) > 0 {
+		panic(fmt.Sprintf("operation hashes: %d %v", len(got), err))
+	}
+}
+
+func (e *c08env) ops(n int) []base.Operation {
+	ops := make([]base.Operation, n)
+	for i := range ops {
+		fact := isaac.NewDummyOperationFact([]byte(fmt.Sprintf("c08-token-%d", i)), c08hash(fmt.Sprintf("c08-op-%d", i)))
+		op, err := isaac.NewDummyOperation(fact, e.local.Privatekey(), e.networkID)
+		if err != nil {
+			panic(err)
+		}
+		ops[i] = op
+	}
+	return ops
+}
+
 func c08hash(s string) util.Hash { return valuehash.NewSHA256([]byte(s)) }
 
 // ballot spec: kind (init|confirm|accept), point, fact variant (A|B), signer index
@@ -141,6 +173,9 @@ type c08scenario struct {
 	// per thread: LOCAL ballots handed to BallotBroadcaster.Broadcast one after the other (what the consensus
 	// handlers and the ballot broadcast timers do: broadcast, and re-broadcast on every tick)
 	directs [][]c08spec
+	// number of removed-operation records old enough to be cleaned by a pool clean tick (spec kind "tick" in directs)
+	oldOps int
+	ticks  bool
 }
 
 func (s c08scenario) id() string {
@@ -164,11 +199,18 @@ func (s c08scenario) id() string {
 		}
 		id += "|direct=" + strings.Join(ds, " || ")
 	}
+	if s.ticks {
+		id += fmt.Sprintf("|oldops=%d", s.oldOps)
+	}
 	return id
 }
 
 func c08path(s c08scenario) string {
 	switch {
+	case s.ticks && len(s.delivers) > 0:
+		return "mimic-ballot+direct-broadcast+clean-tick"
+	case s.ticks:
+		return "direct-broadcast+clean-tick"
 	case len(s.directs) > 0 && len(s.delivers) > 0:
 		return "mimic-ballot+direct-broadcast"
 	case len(s.directs) > 0:
@@ -187,7 +229,7 @@ func c08key(bl base.Ballot) string {
 	return fmt.Sprintf("%s/confirm=%v", bl.Point().String(), isaac.IsSuffrageConfirmBallotFact(bl.SignFact().Fact()))
 }
 
-func c08build(e *c08env, s c08scenario, ballots map[string]base.Ballot) vsched.Scenario {
+func c08build(e *c08env, s c08scenario, ballots map[string]base.Ballot, ops []base.Operation) vsched.Scenario {
 	// small write buffer: goleveldb otherwise allocates and clears a 4 MiB memtable per Open (82% of the run time)
 	lst, err := leveldbstorage.NewStorage(goleveldbstorage.NewMemStorage(), &goleveldbopt.Options{WriteBuffer: 64 << 10})
 	if err != nil {
@@ -196,6 +238,12 @@ func c08build(e *c08env, s c08scenario, ballots map[string]base.Ballot) vsched.S
 	pool, err := isaacdatabase.NewTempPool(lst, e.encs, e.enc, 0)
 	if err != nil {
 		panic(err)
+	}
+	if s.ticks {
+		// operations processed (filtered out) at an old height and at the current one: removed-operation records,
+		// the old ones are what the next clean tick removes
+		c08processed(pool, 30, ops[:s.oldOps])
+		c08processed(pool, 33, ops[s.oldOps:])
 	}
 	var sent []c08sent
 	var sentMu sync.Mutex // REAL mutex (this file is not instrumented): uncontended under the scheduler; needed in the free-running -race pass
@@ -229,6 +277,13 @@ func c08build(e *c08env, s c08scenario, ballots map[string]base.Ballot) vsched.S
 		d := d
 		roots = append(roots, func() {
 			for _, spec := range d {
+				if spec.kind == "tick" {
+					vsched.Point("clean-tick", nil)
+					if _, err := pool.VerifCleanTick(); err != nil {
+						panic(err)
+					}
+					continue
+				}
 				vsched.Point("direct-broadcast", nil)
 				_ = bb.Broadcast(ballots[spec.String()])
 			}
@@ -280,7 +335,7 @@ func c08build(e *c08env, s c08scenario, ballots map[string]base.Ballot) vsched.S
 			for k, fs := range by {
 				if len(fs) > 1 {
 					return &vsched.Fail{
-						Sig:    map[string]any{"kind": "equivocation", "path": c08path(s), "rebroadcast_thread": s.rebroadcast},
+						Sig:    map[string]any{"kind": "equivocation", "path": c08path(s), "rebroadcast_thread": s.rebroadcast, "point_older_than_pool_retention": strings.Contains(k, "height=30")},
 						Detail: fmt.Sprintf("local node broadcast %d different ballot facts for %s: %s | %s", len(fs), k, sum, s.id()),
 					}
 				}
@@ -355,6 +410,32 @@ func TestVerifC08(t *testing.T) {
 		scs = append(scs, c08scenario{state: StateSyncing, delivers: [][]c08spec{{{kind, 33, 0, "A", 0}}}, directs: [][]c08spec{{B, B}}})
 		scs = append(scs, c08scenario{state: StateSyncing, delivers: [][]c08spec{{{kind, 33, 0, "A", 0}}, {{kind, 33, 0, "C", 1}}}, directs: [][]c08spec{{B, B, B}}})
 	}
+	// pool clean ticks (the body of TempPool.startClean) between broadcasts: the pool must not forget the local
+	// ballot of a stage point it still keeps (heights top-2..top), however many old removed-operation records the
+	// cleaner has to page through (one delete batch = 333 deletes = 167 records)
+	tick := c08spec{kind: "tick"}
+	for _, kind := range []string{"init", "accept"} {
+		A, B := c08spec{kind, 33, 0, "A", -1}, c08spec{kind, 33, 0, "B", -1}
+		olds := []int{0, 3, 167, 168, 200}
+		if kind == "accept" {
+			olds = []int{0, 168}
+		}
+		for _, old := range olds {
+			scs = append(scs,
+				c08scenario{state: StateSyncing, directs: [][]c08spec{{A, tick, B, B}}, ticks: true, oldOps: old},
+				c08scenario{state: StateSyncing, directs: [][]c08spec{{A, tick, A, B}}, ticks: true, oldOps: old},
+				c08scenario{state: StateSyncing, directs: [][]c08spec{{A, B}, {tick}}, ticks: true, oldOps: old},
+				c08scenario{state: StateSyncing, delivers: [][]c08spec{{{kind, 33, 0, "A", 0}}}, directs: [][]c08spec{{tick, B}}, ticks: true, oldOps: old},
+			)
+		}
+		// the oldest height the ballot cleaner keeps (top-2)
+		A31, B31 := c08spec{kind, 31, 0, "A", -1}, c08spec{kind, 31, 0, "B", -1}
+		X32, Y33 := c08spec{kind, 32, 0, "A", -1}, c08spec{kind, 33, 0, "A", -1}
+		scs = append(scs, c08scenario{state: StateSyncing, directs: [][]c08spec{{A31, X32, Y33, tick, B31, B31}}, ticks: true})
+		// a stage point older than what the pool keeps (top-3): recorded as a known finding, see known_findings.json
+		A30, B30 := c08spec{kind, 30, 0, "A", -1}, c08spec{kind, 30, 0, "B", -1}
+		scs = append(scs, c08scenario{state: StateSyncing, directs: [][]c08spec{{A30, Y33, tick, B30}}, ticks: true})
+	}
 	r.Set("scenarios_enumerated", len(scs))
 	for i, s := range scs {
 		if !r.Mine(i) || r.Expired() {
@@ -366,10 +447,16 @@ func TestVerifC08(t *testing.T) {
 		ballots := map[string]base.Ballot{}
 		for _, d := range append(append([][]c08spec{}, s.delivers...), s.directs...) {
 			for _, spec := range d {
-				ballots[spec.String()] = e.ballot(spec)
+				if spec.kind != "tick" {
+					ballots[spec.String()] = e.ballot(spec)
+				}
 			}
 		}
-		build := func() vsched.Scenario { return c08build(e, s, ballots) }
+		var ops []base.Operation
+		if s.ticks {
+			ops = e.ops(s.oldOps + 3)
+		}
+		build := func() vsched.Scenario { return c08build(e, s, ballots, ops) }
 		if rid, rp := r.Replaying(); rp {
 			k := strings.LastIndex(rid, "#")
 			if k < 0 || rid[:k] != id {
@@ -427,7 +514,7 @@ func TestVerifC08Race(t *testing.T) {
 			}
 		}
 		for rep := 0; rep < 6; rep++ {
-			sc := c08build(e, s, ballots)
+			sc := c08build(e, s, ballots, nil)
 			if !vsched.RunNative(20*time.Second, sc.Roots...) {
 				t.Fatalf("free-running scenario %s did not finish", s.id())
 			}
